@@ -375,7 +375,6 @@ func (bg *BondgoCheck) Visit(n ast.Node) ast.Visitor {
 					varexist := false
 					if _, ok := bg.Vars[vari]; ok {
 						varexist = true
-						break
 					}
 
 					if varexist {
